@@ -2,7 +2,6 @@ use std::convert::TryFrom;
 use std::hash::{Hasher, Hash};
 use std::collections::{BTreeSet};
 use std::iter::FromIterator;
-use std::ops::{Add, Sub};
 
 use regex::Regex;
 
@@ -86,14 +85,15 @@ impl<'a, T: ColumnProvider> ExpressionExecutionEngine<'a, T> {
 
                 // timestamp + interval, interval + timestamp and timestamp - interval are the only mixed forms with a value
                 match (&left_value, &right_value, operator) {
+                    // (a result outside the representable range is an error, not a panic)
                     (Value::Timestamp(left), Value::Interval(right), ArithmeticOperator::Add) => {
-                        return Ok(Value::Timestamp(left.add(right.clone())));
+                        return left.checked_add_signed(right.clone()).map(|x| Value::Timestamp(x)).ok_or(EvaluationError::UndefinedOperation);
                     }
                     (Value::Interval(left), Value::Timestamp(right), ArithmeticOperator::Add) => {
-                        return Ok(Value::Timestamp(right.add(left.clone())));
+                        return right.checked_add_signed(left.clone()).map(|x| Value::Timestamp(x)).ok_or(EvaluationError::UndefinedOperation);
                     }
                     (Value::Timestamp(left), Value::Interval(right), ArithmeticOperator::Subtract) => {
-                        return Ok(Value::Timestamp(left.sub(right.clone())));
+                        return left.checked_sub_signed(right.clone()).map(|x| Value::Timestamp(x)).ok_or(EvaluationError::UndefinedOperation);
                     }
                     _ => {}
                 }
@@ -135,8 +135,8 @@ impl<'a, T: ColumnProvider> ExpressionExecutionEngine<'a, T> {
                     },
                     |x, y| {
                         match operator {
-                            ArithmeticOperator::Add => { Some(Value::Interval(x + y)) }
-                            ArithmeticOperator::Subtract => { Some(Value::Interval(x - y)) }
+                            ArithmeticOperator::Add => { x.checked_add(&y).map(|value| Value::Interval(value)) }
+                            ArithmeticOperator::Subtract => { x.checked_sub(&y).map(|value| Value::Interval(value)) }
                             ArithmeticOperator::Multiply => { None }
                             ArithmeticOperator::Divide => { None }
                         }
